@@ -183,6 +183,12 @@ func (me *Peer) SendTransactionsMessage(idForNetwork crypto.Hash, txs []*common.
 func (me *Peer) ConfirmSnapshotForPeer(idForNetwork, snap crypto.Hash) {
 	key := append(idForNetwork[:], snap[:]...)
 	key = append(key, 'S', 'C', 'O')
+	if simEnabled {
+		if now, ok := simNow(); ok {
+			me.snapshotsCaches.store(key, now)
+			return
+		}
+	}
 	me.snapshotsCaches.store(key, time.Now())
 }
 
